@@ -2,6 +2,7 @@
 import z3
 from pyvc.sorts import *  # noqa
 from pyvc.verify import Contract
+from pyvc.ops import pymod, pydiv
 from .model import *  # noqa
 
 CONTRACTS = {}
@@ -126,13 +127,14 @@ class DimRoot(_DimOp):
         i = z3.Int("i!rt")
         n = a.degree.z
         yield ("FractionalDimensionError",
-               z3.And(n != 0, z3.Exists([i], z3.And(i >= 0, i < NDIM, dexp(c, a.self, i) % n != 0))), "indivisible")
+               z3.And(n != 0, z3.Exists([i], z3.And(i >= 0, i < NDIM, pymod(dexp(c, a.self, i), n) != 0))), "indivisible")
 
     def ensures(self, c, a, r):
         n = a.degree.z
         yield "is-dimension", result_is_dim(c, r)
         yield "degree-zero-number", z3.Implies(n == 0, r.ref == Number.ref)
         yield "exponents-divide", z3.Implies(n != 0, pointwise_rel(c, r, lambda i, e: e * n == dexp(c.old, a.self, i)))
+        yield "exponents-floor", z3.Implies(n != 0, pointwise_rel(c, r, lambda i, e: e == pydiv(dexp(c.old, a.self, i), n)))
         yield from self.frame_post(c)
 
 
